@@ -21,6 +21,20 @@ ELEM_METHODS = {"values", "items", "get", "keys"}
 BUILTIN_MUT = MUTATORS | {"sort", "fill", "itemset", "resize", "byteswap", "partition", "put", "setfield", "setflags", "drop_duplicates_inplace"}
 
 
+def _is_abstract(fi):
+    for st in fi.node.body:
+        if isinstance(st, ast.Expr) and isinstance(st.value, ast.Constant):
+            continue
+        if isinstance(st, ast.Pass):
+            continue
+        if isinstance(st, ast.Return) and st.value is None:
+            continue
+        if isinstance(st, ast.Raise) and st.exc is not None and "NotImplemented" in ast.unparse(st.exc):
+            continue
+        return False
+    return True
+
+
 class Summary:
     __slots__ = ("mut", "ret_alias")
 
@@ -326,6 +340,10 @@ class Effects:
                     if r is not None and r[1] == "self":
                         mut(r, n, "setattr `%s`" % norm(st)[:90])
                 targets = [(c, k) for c, k in self.cg.resolve(fi, n) if k in ("direct", "method")]
+                if len(targets) > 1:
+                    # abstract placeholders of an override family (body: docstring / pass / return / raise NotImplementedError) are never the callee that runs
+                    concrete = [(c, k) for c, k in targets if not _is_abstract(c)]
+                    targets = concrete or targets
                 if targets:
                     # parameters of the callees mutated by *all* possible targets
                     common = None
